@@ -8,6 +8,7 @@ from __future__ import annotations
 
 import builtins
 import logging
+import types
 from argparse import (
     SUPPRESS,
     Action,
@@ -31,7 +32,10 @@ from typing import (
     Set,
     Type,
     TypeVar,
+    Union,
     cast,
+    get_args,
+    get_origin,
     overload,
 )
 from typing_extensions import Unpack  # noqa: TCH002
@@ -451,9 +455,18 @@ def _get_arg_type_wrapper(cls: Type[Any]) -> Callable[[Any], Any]:
             raise ArgumentTypeError(text) from e  # propagate to the client
 
     # Copy the name of the class to maintain useful help messages when
-    # incorrect arguments are passed.
-    wrapper.__name__ = cls.__name__
+    # incorrect arguments are passed. (Not every annotation object has a name.)
+    wrapper.__name__ = getattr(cls, "__name__", repr(cls))
     return wrapper
+
+
+def _strip_optional(annotation: Any) -> Any:
+    """Returns `X` for an evaluated `Optional[X]` / `X | None` annotation."""
+    if get_origin(annotation) in (Union, getattr(types, "UnionType", Union)):
+        args = [a for a in get_args(annotation) if a is not type(None)]
+        if len(args) == 1:
+            return args[0]
+    return annotation
 
 
 def _escape_help(text: str | None) -> str | None:
@@ -502,6 +515,7 @@ def _get_type_from_annotation(annotation: Any) -> Callable[[Any], Any]:
     """
     if isinstance(annotation, str):
         annotation = _resolve_postponed_annotation(annotation)
+    annotation = _strip_optional(annotation)
     if any(annotation is t for t in (AnyCoroutineFunc, EndCB, CancelCB)):
         annotation = resolve_dotted_path
     if any(
